@@ -164,7 +164,7 @@ func (j *judge) progEq() {
 		}
 		j.evals++
 		want := "E " + strings.Join([]string{
-			b2s(vu.StructEq(a, b)), b2s(vu.StructEq(b, a)), "true", "true", b2s(vu.StructEq(b, c)), b2s(vu.StructEq(a, c)), b2s(!vu.StructEq(a, b)), "true"}, " ")
+			b2s(structEq(a, b)), b2s(structEq(b, a)), "true", "true", b2s(structEq(b, c)), b2s(structEq(a, c)), b2s(!structEq(a, b)), "true"}, " ")
 		okBoth := true
 		for _, be := range []struct {
 			name string
@@ -348,7 +348,7 @@ func (j *judge) progJSON() {
 					var raw any
 					if e := dec.Decode(&raw); e != nil {
 						j.fail(be.name, "text-invalid", consDetail(jsonConstructs(v, t, be.name, "")), "to_json of %s printed %q, which is not JSON", v, clip(lines[0], 200))
-					} else if ref, rerr := refFromJSON(raw, t); rerr != nil || !vu.StructEq(ref, held) {
+					} else if ref, rerr := refFromJSON(raw, t); rerr != nil || !structEq(ref, held) {
 						j.fail(be.name, "text-wrong", consDetail(jsonConstructs(v, t, be.name, "")), "to_json of %s is %s, which under %s denotes %s (%v)", v, clip(lines[0], 200), t.Src(), ref, rerr)
 					}
 				}
